@@ -6,12 +6,17 @@ through the public matplotlib API and compared with the plain numbers the fits w
 pointwise uncertainties, bin edges, the python model function evaluated at fit.parameter_values) and with the public
 results of the fit (error_band, parameter values / errors, goodness of fit, ndf, probability, cost value).
 """
+import contextlib
+import io
+import logging
 import warnings
 
 import numpy as np
 
 from kmc import c18_plotread as R
 from kmc.core import JobResult
+
+logging.getLogger("matplotlib.font_manager").setLevel(logging.ERROR)  # 'findfont' chatter on stderr
 
 PROPERTY = "C18"
 RULE = (
@@ -413,7 +418,8 @@ def execute(cfg):
     kw, separate = opt_kwargs(opt)
     rec.ops = 0
     try:
-        with warnings.catch_warnings():
+        # the minimizer base class print()s a warning whenever a Poisson likelihood is evaluated at a non-positive model
+        with warnings.catch_warnings(), contextlib.redirect_stdout(io.StringIO()):
             warnings.simplefilter("ignore")
             worlds = [R.World(ftype, unc, v, r) for r in roles]
             for w in worlds:
